@@ -14,6 +14,8 @@ import (
 )
 
 type Engine struct {
+	constGlobalsDone bool
+	constGlobalList  []*ssa.Global
 	repo        string
 	prog        *ssa.Program
 	pkgs        []*packages.Package
@@ -399,4 +401,31 @@ func (x *Exec) constTerm(tv types.TypeAndValue, t types.Type) *Term {
 	}
 	c := ssa.NewConst(tv.Value, t)
 	return x.constVal(c).(*Term)
+}
+
+// constGlobals: the package-level variables mentioned in the verifGlobals()
+// functions of the loaded packages (assumed never reassigned after init).
+func (e *Engine) constGlobals() []*ssa.Global {
+	if e.constGlobalsDone {
+		return e.constGlobalList
+	}
+	e.constGlobalsDone = true
+	seen := map[*ssa.Global]bool{}
+	for _, p := range e.prog.AllPackages() {
+		fn := p.Func("verifGlobals")
+		if fn == nil {
+			continue
+		}
+		for _, b := range fn.Blocks {
+			for _, ins := range b.Instrs {
+				for _, op := range ins.Operands(nil) {
+					if g, ok := (*op).(*ssa.Global); ok && !seen[g] {
+						seen[g] = true
+						e.constGlobalList = append(e.constGlobalList, g)
+					}
+				}
+			}
+		}
+	}
+	return e.constGlobalList
 }
